@@ -4,6 +4,7 @@ package c07
 
 import (
 	"fmt"
+	"math"
 	"testing"
 
 	"github.com/esimov/gogu/cache"
@@ -18,6 +19,9 @@ type Op struct {
 }
 
 type Case struct {
+	// NaN: the cache is keyed by float64 and key 0 stands for NaN - a key that equals no key, itself
+	// included: every Add of it is a new entry, no Get/Remove ever finds it, eviction still hands it back
+	NaN  bool `json:"nan,omitempty"`
 	Cap  int  `json:"cap"`
 	Keys int  `json:"keys"`
 	Ops  []Op `json:"ops"`
@@ -28,10 +32,14 @@ type ent struct{ k, v int }
 // model: index 0 = most recently touched.
 type model struct {
 	cap int
+	nan bool
 	l   []ent
 }
 
 func (m *model) find(k int) int {
+	if m.nan && k == 0 {
+		return -1
+	}
 	for i, e := range m.l {
 		if e.k == k {
 			return i
@@ -47,17 +55,36 @@ func (m *model) front(i int) {
 }
 
 func run(w *core.Worker, c Case) {
-	lru, err := cache.NewLRU[int, int](c.Cap)
+	if c.NaN {
+		runK(w, c, func(id int) float64 {
+			if id == 0 {
+				return math.NaN()
+			}
+			return float64(id) + 0.5
+		}, func(g float64, id int) bool {
+			if id == 0 {
+				return g != g
+			}
+			return g == float64(id)+0.5
+		})
+		return
+	}
+	runK(w, c, func(id int) int { return id }, func(g int, id int) bool { return g == id })
+}
+
+func runK[K comparable](w *core.Worker, c Case, toKey func(int) K, same func(K, int) bool) {
+	var zk K
+	lru, err := cache.NewLRU[K, int](c.Cap)
 	if err != nil || lru == nil {
 		w.Violation("lru.new-rejected-positive", fmt.Sprintf("NewLRU(%d) = %v, %v", c.Cap, lru, err))
 		return
 	}
-	m := &model{cap: c.Cap}
+	m := &model{cap: c.Cap, nan: c.NaN}
 	evictions, refreshes := 0, 0
 
-	check := func(step int, what string, gk, gv int, gok bool, wk, wv int, wok bool) bool {
-		if gok != wok || (wok && (gk != wk || gv != wv)) || (!wok && (gk != 0 || gv != 0)) {
-			w.Violation("lru."+what, fmt.Sprintf("step %d: %s returned (%d,%d,%v), model says (%d,%d,%v); model recency (most recent first) %v", step, what, gk, gv, gok, wk, wv, wok, m.l))
+	check := func(step int, what string, gk K, gv int, gok bool, wk, wv int, wok bool) bool {
+		if gok != wok || (wok && (!same(gk, wk) || gv != wv)) || (!wok && (gk != zk || gv != 0)) {
+			w.Violation("lru."+what, fmt.Sprintf("step %d: %s returned (%v,%d,%v), model says (key #%d,%d,%v); model recency (most recent first) %v", step, what, gk, gv, gok, wk, wv, wok, m.l))
 			return false
 		}
 		return true
@@ -80,7 +107,7 @@ func run(w *core.Worker, c Case) {
 			switch op.K {
 			case "add":
 				val := 100 + i
-				ek, ev, evicted := lru.Add(op.Key, val)
+				ek, ev, evicted := lru.Add(toKey(op.Key), val)
 				if j := m.find(op.Key); j >= 0 {
 					m.l[j].v = val
 					m.front(j)
@@ -98,23 +125,23 @@ func run(w *core.Worker, c Case) {
 					}
 				}
 			case "get":
-				v, ok := lru.Get(op.Key)
+				v, ok := lru.Get(toKey(op.Key))
 				if j := m.find(op.Key); j >= 0 {
-					good = check(i, "Get", op.Key, v, ok, op.Key, m.l[j].v, true)
+					good = check(i, "Get", toKey(op.Key), v, ok, op.Key, m.l[j].v, true)
 					if j > 0 {
 						refreshes++
 					}
 					m.front(j)
 				} else {
-					good = check(i, "Get", 0, v, ok, 0, 0, false)
+					good = check(i, "Get", zk, v, ok, 0, 0, false)
 				}
 			case "remove":
-				v, ok := lru.Remove(op.Key)
+				v, ok := lru.Remove(toKey(op.Key))
 				if j := m.find(op.Key); j >= 0 {
-					good = check(i, "Remove", op.Key, v, ok, op.Key, m.l[j].v, true)
+					good = check(i, "Remove", toKey(op.Key), v, ok, op.Key, m.l[j].v, true)
 					m.l = append(m.l[:j], m.l[j+1:]...)
 				} else {
-					good = check(i, "Remove", 0, v, ok, 0, 0, false)
+					good = check(i, "Remove", zk, v, ok, 0, 0, false)
 				}
 			case "oldest":
 				k, v, ok := lru.GetOldest()
@@ -176,7 +203,7 @@ func run(w *core.Worker, c Case) {
 			panic("stop")
 		}
 		for key := 0; key < c.Keys; key++ {
-			if v, ok := lru.Get(key); ok {
+			if v, ok := lru.Get(toKey(key)); ok {
 				w.Violation("lru.ghost-entry", fmt.Sprintf("after a complete drain Get(%d) still finds value %d", key, v))
 				panic("stop")
 			}
@@ -255,7 +282,7 @@ func FuzzLRU(f *testing.F) {
 func TestProp(t *testing.T) {
 	r := core.Start(t, "C07")
 	defer r.Finish()
-	r.Rule("cases = operation sequences on cache.LRUCache[int,int] checked against a recency-list model: every return value (incl. the evicted entry of Add), Count <= capacity and GetYoungest after every step, and a final drain by RemoveOldest (full recency order, map/list agreement, no ghost entries); non-trivial = at least one eviction or recency refresh; distinct by hash of (capacity, ops); lru-new: NewLRU(n) for n in -4..4")
+	r.Rule("cases = operation sequences on cache.LRUCache[int,int] checked against a recency-list model: every return value (incl. the evicted entry of Add), Count <= capacity and GetYoungest after every step, and a final drain by RemoveOldest (full recency order, map/list agreement, no ghost entries); non-trivial = at least one eviction or recency refresh; distinct by hash of (capacity, ops); lru-nan-keys: the same on cache.LRUCache[float64,int] with NaN among the keys; lru-new: NewLRU(n) for n in -4..4")
 
 	core.Monitor(r, "lru-sweep", 0, func(emit func(Case)) {
 		type cfg struct {
@@ -308,6 +335,36 @@ func TestProp(t *testing.T) {
 						c.Ops = append(c.Ops, Op{"add", rng.Intn(keys)})
 					}
 				}
+			}
+			emit(c)
+		}
+	}, run)
+
+	// float64 keys with NaN among them (a key that can be neither found nor deleted from a Go map):
+	// the capacity bound, the eviction order and Count must not depend on the keys being reflexive
+	nNaN := r.Pick(6000, 200000)
+	core.Monitor(r, "lru-nan-keys", 0, func(emit func(Case)) {
+		a := alphabet(3)
+		for _, cp := range []int{1, 2, 3} {
+			n := seq.Enum(a, r.Pick(4, 5), func(ops []Op) { emit(Case{NaN: true, Cap: cp, Keys: 3, Ops: ops}) })
+			r.Exhaustive(fmt.Sprintf("float64 keys {NaN, 1.5, 2.5}: all sequences of length<=%d over the 8 operations, capacity %d", r.Pick(4, 5), cp), n)
+		}
+		rng := r.Rand("c07-nan")
+		for i := 0; i < nNaN; i++ {
+			cp := rng.Range(1, 8)
+			keys := cp + rng.Range(1, 4)
+			c := Case{NaN: true, Cap: cp, Keys: keys}
+			ops := []string{"add", "add", "add", "add", "get", "remove", "oldest", "youngest", "rmoldest", "rmyoungest", "add", "get"}
+			for n := rng.Range(6, 60); n > 0; n-- {
+				k := rng.Intn(keys)
+				if rng.Chance(1, 3) {
+					k = 0
+				}
+				o := ops[rng.Intn(len(ops))]
+				if rng.Chance(1, 60) {
+					o = "flush"
+				}
+				c.Ops = append(c.Ops, Op{o, k})
 			}
 			emit(c)
 		}
